@@ -218,12 +218,46 @@ def solver_case(rep, spec, index):
         rep.require(name, False, case, problems[0])
     else:
         rep.require(name, True, case)
+    if str(fc.model) == "NRTL" and index % 4 == 0:
+        _endpoint_curves(rep, case, fc, pvt, rng)
     # membrane selectivity inverts
     t = fc.t_feed
     c1, c2 = fc.mix.first_component, fc.mix.second_component
     for kind in ("molar", "weight"):
         s, st = fc.membrane.get_ideal_selectivity(t, c1, c2, kind), fc.membrane.get_ideal_selectivity(t, c2, c1, kind)
         rep.check("membrane selectivity inverts", abs(s * st - 1), 16 * EPS, case, {"s": float(s), "twin": float(st), "kind": kind})
+
+
+def _endpoint_curves(rep, case, fc, pvt, rng):
+    """an ideal curve over the FULL composition range under vacuum, pure feeds included (x = 0 and x = 1 exactly), and its
+    relabelled twin: fluxes and permeances are mirrored point by point; where one side reports nan (0/0 for the absent
+    component) the other must do so as well"""
+    from pyvaporation.mixtures import Composition
+
+    q = rng.uniform(0.1, 0.9)
+    xs = [0.0, q, 1.0]
+    try:
+        with guards.budget(proc.SOFT_BUDGET):
+            a = fc.pv.ideal_diffusion_curve(fc.t_feed, [Composition(p=x, type="weight") for x in xs], None, None, fc.precision, fc.model)
+            b = pvt.ideal_diffusion_curve(fc.t_feed, [Composition(p=1.0 - x, type="weight") for x in xs], None, None, fc.precision, fc.model)
+    except (Exception, guards.BudgetExceeded) as e:
+        rep.count("endpoint_curve_not_built_" + type(e).__name__)
+        return
+
+    def same(u, v):
+        u, v = float(u), float(v)
+        if math.isnan(u) or math.isnan(v):
+            return math.isnan(u) and math.isnan(v)
+        return abs(u - v) <= 1e-9 * max(abs(u), abs(v))
+
+    bad = None
+    for k, x in enumerate(xs):
+        for i in (0, 1):
+            if not same(a.partial_fluxes[k][i], b.partial_fluxes[k][1 - i]):
+                bad = {"what": "flux", "x": x, "component": i, "orig": float(a.partial_fluxes[k][i]), "twin": float(b.partial_fluxes[k][1 - i])}
+            elif not same(a.permeances[k][i].value, b.permeances[k][1 - i].value):
+                bad = {"what": "permeance", "x": x, "component": i, "orig": float(a.permeances[k][i].value), "twin": float(b.permeances[k][1 - i].value)}
+    rep.require("full-range vacuum curve (pure feeds included) is mirrored point by point (NRTL)", bad is None, dict(case, curve_points=xs), bad)
 
 
 def sane_gamma(mix, model, T, comp):
